@@ -11,7 +11,8 @@ import (
 
 // refCase: the base configuration with a list of edits applied.
 type refCase struct {
-	Edits []refEdit `json:"edits"`
+	Edits  []refEdit `json:"edits"`
+	Import bool      `json:"import,omitempty"` // the file also imports another (unrelated, valid) file: the merged document goes through the import path of the loader
 }
 
 type refEdit struct {
@@ -27,10 +28,14 @@ func (c refCase) String() string {
 	for _, e := range c.Edits {
 		parts = append(parts, fmt.Sprintf("%s(%s/%d/%d=%s)", e.Kind, e.Pipeline, e.Stage, e.Dep, e.Value))
 	}
-	if len(parts) == 0 {
-		return "base"
+	pre := ""
+	if c.Import {
+		pre = "with-import:"
 	}
-	return strings.Join(parts, "+")
+	if len(parts) == 0 {
+		return pre + "base"
+	}
+	return pre + strings.Join(parts, "+")
 }
 
 type absStage struct {
@@ -261,6 +266,10 @@ func c18One(x *ctx, c refCase) bool {
 	dir := newCaseDir(x.root)
 	defer os.RemoveAll(dir)
 	lc := LoadCase{Files: map[string]string{"cfg.yaml": a.yaml()}, Main: "cfg.yaml", Note: c.String()}
+	if c.Import {
+		lc.Files["cfg.yaml"] = "import: [extra.yaml]\n" + a.yaml()
+		lc.Files["extra.yaml"] = "tasks:\n  extra:\n    command: \"true\"\n"
+	}
 	r := loadInProcess(dir, lc)
 	r.release()
 	if exhausted(r) {
@@ -271,7 +280,7 @@ func c18One(x *ctx, c refCase) bool {
 	for _, e := range c.Edits {
 		kinds += e.Kind + ","
 	}
-	x.kinds[fmt.Sprintf("%s wellformed=%v", kinds, ok)] = true
+	x.kinds[fmt.Sprintf("%s wellformed=%v import=%v", kinds, ok, c.Import)] = true
 	switch {
 	case r.hang:
 		x.violation("hang", "load "+kinds, "loading did not terminate: "+c.String(), c, false)
@@ -384,6 +393,11 @@ func unitC18(x *ctx) {
 		do(refCase{})
 		for _, e := range edits {
 			do(refCase{Edits: []refEdit{e}})
+		}
+		// the same with an import section in the file
+		do(refCase{Import: true})
+		for _, e := range edits {
+			do(refCase{Edits: []refEdit{e}, Import: true})
 		}
 	case "c18-pairs":
 		for i, e := range edits {
